@@ -401,6 +401,84 @@ theorem reorderElements_pairs (d d' : LabeledData ι κ) (idx : List Nat) (hd : 
     cases ha : i.flat[j]? <;> cases hb : l.flat[j]? <;> cases hA : d.inputs.flat[x]? <;>
       cases hB : d.labels.flat[x]? <;> simp_all
 
+theorem WF_flat_length (d : LabeledData ι κ) (h : WF d) : d.inputs.flat.length = d.labels.flat.length := by
+  rw [← Data.numberOfElements_eq, ← Data.numberOfElements_eq]
+  simp only [Data.numberOfElements]; rw [h]
+
+theorem pairs_length (d : LabeledData ι κ) (h : WF d) : (pairs d).length = d.numberOfElements := by
+  simp [pairs, LabeledData.numberOfElements, d.inputs.numberOfElements_eq, WF_flat_length d h]
+
+/-- `transformLabels` / `oneVersusRestProblem`: inputs untouched, every label replaced by its image, pairing kept -/
+theorem transformLabels_pairs {κ' : Type} (d : LabeledData ι κ) (f : κ → κ') (sh : Shape) (h : WF d) :
+    ∃ d', d.transformLabels f sh = .ok d' ∧ WF d' ∧ pairs d' = (pairs d).map (fun p => (p.1, f p.2)) ∧
+      d'.inputs = d.inputs := by
+  have hn : d.inputs.numberOfElements = (d.labels.transform f sh).numberOfElements := by
+    simp only [Data.numberOfElements, (transform_flat d.labels f sh).2]; rw [h]
+  refine ⟨⟨d.inputs, d.labels.transform f sh⟩, by simp [LabeledData.transformLabels, LabeledData.mk', hn], ?_, ?_, rfl⟩
+  · show d.inputs.partitioning = (d.labels.transform f sh).partitioning
+    rw [(transform_flat d.labels f sh).2]; exact h
+  · simp only [pairs, (transform_flat d.labels f sh).1]
+    rw [List.zip_map_right]
+    apply List.map_congr_left; intro p _; rfl
+
+/-- `transformInputs`: labels untouched, every input replaced by its image, pairing kept -/
+theorem transformInputs_pairs {ι' : Type} (d : LabeledData ι κ) (f : ι → ι') (sh : Shape) (h : WF d) :
+    ∃ d', d.transformInputs f sh = .ok d' ∧ WF d' ∧ pairs d' = (pairs d).map (fun p => (f p.1, p.2)) := by
+  have hn : (d.inputs.transform f sh).numberOfElements = d.labels.numberOfElements := by
+    simp only [Data.numberOfElements, (transform_flat d.inputs f sh).2]; rw [h]
+  refine ⟨⟨d.inputs.transform f sh, d.labels⟩, by simp [LabeledData.transformInputs, LabeledData.mk', hn], ?_, ?_⟩
+  · show (d.inputs.transform f sh).partitioning = d.labels.partitioning
+    rw [(transform_flat d.inputs f sh).2]; exact h
+  · simp only [pairs, (transform_flat d.inputs f sh).1]
+    rw [List.zip_map_left]
+    apply List.map_congr_left; intro p _; rfl
+
+theorem splice_partitioning (d l r : Data ε) (b : Nat) (h : d.splice b = .ok (l, r)) :
+    l.partitioning = d.partitioning.take b ∧ r.partitioning = d.partitioning.drop b := by
+  simp only [Data.splice, bind_ok, require_ok, pure_ok, Prod.mk.injEq] at h
+  obtain ⟨_, _, rfl, rfl⟩ := h
+  simp [Data.partitioning, List.map_take, List.map_drop]
+
+/-- `splice`: both parts stay well-formed and their pair sequences concatenate to the original -/
+theorem splice_pairs (d l r : LabeledData ι κ) (b : Nat) (hd : WF d) (h : d.splice b = .ok (l, r)) :
+    WF l ∧ WF r ∧ pairs l ++ pairs r = pairs d ∧ l.partitioning = d.partitioning.take b := by
+  simp only [LabeledData.splice, bind_ok, pure_ok, Prod.mk.injEq] at h
+  obtain ⟨⟨il, ir⟩, hi, ⟨ll, lr⟩, hl, x, hmk, rfl, rfl⟩ := h
+  simp only [LabeledData.mk'] at hmk
+  split at hmk
+  · simp only [Except.ok.injEq] at hmk; subst hmk
+    obtain ⟨hip, hir⟩ := splice_partitioning _ _ _ _ hi
+    obtain ⟨hlp, hlr⟩ := splice_partitioning _ _ _ _ hl
+    have hwl : WF (⟨il, ll⟩ : LabeledData ι κ) := by show il.partitioning = ll.partitioning; rw [hip, hlp, hd]
+    have hwr : WF (⟨ir, lr⟩ : LabeledData ι κ) := by show ir.partitioning = lr.partitioning; rw [hir, hlr, hd]
+    refine ⟨hwl, hwr, ?_, hip⟩
+    simp only [pairs]
+    rw [← (splice_flat _ _ _ _ hi).1, ← (splice_flat _ _ _ _ hl).1]
+    exact (List.zip_append (WF_flat_length _ hwl)).symm
+  · simp at hmk
+
+/-- the scan of `splitAtElement`: it stops at the first batch whose end reaches `k` -/
+theorem splitScan_spec (P : List Nat) : ∀ (batchPos batchStart k bp bs : Nat),
+    LabeledData.splitScan P batchPos batchStart k = some (bp, bs) →
+    ∃ j s, bp = batchPos + j ∧ P[j]? = some s ∧ bs = batchStart + (P.take j).sum ∧ k ≤ bs + s ∧
+      (bs < k ∨ j = 0) := by
+  induction P with
+  | nil => intro _ _ _ _ _ h; simp [LabeledData.splitScan] at h
+  | cons s rest ih =>
+    intro batchPos batchStart k bp bs h
+    unfold LabeledData.splitScan at h
+    split at h
+    · rename_i hlt
+      obtain ⟨j, s', hbp, hs', hbs, hk, hj⟩ := ih _ _ _ _ _ h
+      refine ⟨j + 1, s', by omega, by simpa using hs', by simp [List.take_succ_cons]; omega, hk, Or.inl ?_⟩
+      rcases hj with hj | hj
+      · exact hj
+      · subst hj; simp at hbs; omega
+    · rename_i hge
+      simp only [Option.some.injEq, Prod.mk.injEq] at h
+      obtain ⟨rfl, rfl⟩ := h
+      exact ⟨0, s, rfl, by simp, by simp, by omega, Or.inr rfl⟩
+
 /-! ## E. arbitrary operation histories -/
 
 /-- how `splitBatch b k` changes a partitioning -/
@@ -440,6 +518,75 @@ theorem allPos_splitPart (P : List Nat) (b k : Nat) (hP : allPos P) (hk : ∀ s,
       · omega
       · omega
       · exact hP x (List.mem_of_mem_drop hx)
+
+theorem splitBatch_WF (d d' : LabeledData ι κ) (b k : Nat) (hd : WF d) (h : d.splitBatch b k = .ok d') :
+    WF d' ∧ d'.inputs.partitioning = splitPart d.inputs.partitioning b k ∧
+      (∀ s, d.inputs.partitioning[b]? = some s → k ≤ s) := by
+  simp only [LabeledData.splitBatch, bind_ok, pure_ok] at h
+  obtain ⟨i, hi, l, hl, rfl⟩ := h
+  obtain ⟨hip, hik⟩ := splitBatch_partitioning _ _ _ _ hi
+  obtain ⟨hlp, _⟩ := splitBatch_partitioning _ _ _ _ hl
+  exact ⟨by show i.partitioning = l.partitioning; rw [hip, hlp, hd], hip, hik⟩
+
+theorem sum_take_succ (P : List Nat) (j s : Nat) (h : P[j]? = some s) : (P.take (j + 1)).sum = (P.take j).sum + s := by
+  have hj : j < P.length := by
+    rcases Nat.lt_or_ge j P.length with hlt | hge
+    · exact hlt
+    · rw [List.getElem?_eq_none hge] at h; simp at h
+  rw [List.take_succ_eq_append_getElem hj, List.sum_append]
+  have : P[j] = s := by rw [List.getElem?_eq_getElem hj] at h; exact Option.some.inj h
+  simp [this]
+
+/-- **splitAtElement(data, k)**: the first `k` (input, label) pairs stay, the rest is returned, both parts are
+well-formed, nothing is lost, duplicated or re-paired — for every partitioning and every `k ≤ n` -/
+theorem splitAtElement_pairs (d l r : LabeledData ι κ) (k : Nat) (hd : WF d) (h : d.splitAtElement k = .ok (l, r)) :
+    WF l ∧ WF r ∧ pairs l ++ pairs r = pairs d ∧ (pairs l).length = k := by
+  simp only [LabeledData.splitAtElement, bind_ok, require_ok, ofOpt_ok, decide_eq_true_eq] at h
+  obtain ⟨_, _, ⟨bp, bs⟩, hscan, sp, hsp, h⟩ := h
+  obtain ⟨j, s, hbp, hs, hbs, hk, hj⟩ := splitScan_spec _ _ _ _ _ _ hscan
+  simp only [Nat.zero_add] at hbp hbs
+  have hbp' : j = bp := hbp.symm
+  subst hbp'
+  simp only [csub] at hsp
+  split at hsp
+  · rename_i hle
+    simp only [Option.some.injEq] at hsp
+    subst hsp
+    simp only [LabeledData.partitioning] at hs hbs
+    by_cases h0 : k - bs = 0
+    · simp only [h0, ne_eq, not_true_eq_false, if_false] at h
+      obtain ⟨hwl, hwr, hpairs, hlp⟩ := splice_pairs d l r j hd h
+      refine ⟨hwl, hwr, hpairs, ?_⟩
+      rw [pairs_length l hwl]
+      simp only [LabeledData.numberOfElements, Data.numberOfElements]
+      have : l.inputs.partitioning = d.inputs.partitioning.take j := hlp
+      rw [this]; omega
+    · simp only [h0, ne_eq, not_false_eq_true, if_true, bind_ok] at h
+      obtain ⟨d', hsb, hspl⟩ := h
+      obtain ⟨hwd', hpart, _⟩ := splitBatch_WF d d' j (k - bs) hd hsb
+      have hpd := splitBatch_pairs d d' j (k - bs) hsb
+      obtain ⟨hwl, hwr, hpairs, hlp⟩ := splice_pairs d' l r (j + 1) hwd' hspl
+      refine ⟨hwl, hwr, by rw [hpairs, hpd], ?_⟩
+      rw [pairs_length l hwl]
+      simp only [LabeledData.numberOfElements, Data.numberOfElements]
+      have hl' : l.inputs.partitioning = d'.inputs.partitioning.take (j + 1) := hlp
+      rw [hl', hpart]
+      simp only [splitPart, hs]
+      have hjlt : j < d.inputs.partitioning.length := by
+        rcases Nat.lt_or_ge j d.inputs.partitioning.length with hlt | hge
+        · exact hlt
+        · rw [List.getElem?_eq_none hge] at hs; simp at hs
+      by_cases hc : k - bs = 0 ∨ k - bs = s
+      · simp only [hc, if_true]
+        rw [sum_take_succ _ _ _ hs]; omega
+      · simp only [hc, if_false]
+        have hlen : (d.inputs.partitioning.take j).length = j := by rw [List.length_take]; omega
+        rw [List.append_assoc, List.take_append, hlen, List.take_of_length_le (by omega)]
+        have e1 : j + 1 - j = 1 := by omega
+        rw [e1]
+        simp [List.sum_append]
+        omega
+  · simp at hsp
 
 /-- the structure-changing operations a client can apply to one labelled dataset -/
 inductive Op where
